@@ -648,9 +648,12 @@ def copy_sign(lhs, rhs, ctx):
     """Element ∆±
     (num, num) -> math.copysign(a, b)
     """
-    return multiply(
-        vy_abs(lhs, ctx), (-1 if less_than(rhs, 0, ctx) else 1), ctx
-    )
+    ts = vy_type(lhs, rhs)
+    return {
+        (NUMBER_TYPE, NUMBER_TYPE): lambda: multiply(
+            vy_abs(lhs, ctx), (-1 if less_than(rhs, 0, ctx) else 1), ctx
+        ),
+    }.get(ts, lambda: vectorise(copy_sign, lhs, rhs, ctx=ctx))()
 
 
 def cosine(lhs, ctx):
